@@ -224,11 +224,20 @@ func c20Program(seed uint64, steps int) *transcript {
 			blob := ser.Serialize(nil, src)
 			if r.Chance(1, 5) && len(blob) > 16 {
 				// a damaged copy first: failed decodes must not poison what later calls share
+				// (damage at the very end: the error comes late, after the string and message blocks
+				// have been handed to their decoder; the destination is used again at once)
 				bad := append([]byte{}, blob...)
-				for i := 1; i <= 6; i++ {
-					bad[len(bad)-i] ^= 0x5a
+				switch r.Intn(3) {
+				case 0:
+					for i := 1; i <= 6; i++ {
+						bad[len(bad)-i] ^= 0x5a
+					}
+				case 1:
+					bad = bad[:len(bad)-1-r.Intn(8)]
+				default:
+					bad = bad[:len(bad)/2]
 				}
-				_, derr := ser.Deserialize(bad, nil)
+				_, derr := ser.Deserialize(bad, serDst)
 				t.add("deser-damaged", []byte(fmt.Sprint(derr != nil)))
 			}
 			out, err := ser.Deserialize(blob, serDst)
